@@ -7,7 +7,8 @@ from hypothesis import strategies as st
 from .. import core, known, route
 
 SIG_OVERFLOW = "dijkstra-unreachable-node-relaxed"     # root cause: ULONG_MAX + cost wraps around in the relaxation
-CPU = 3   # seconds; the median case needs ~3 ms
+CPU = 3        # seconds of CPU for a request (a case needs 5-100 ms of CPU here, page faults after fork included)
+CPU_CONFIRM = 8  # budget of the re-execution that confirms a hang
 SIG_ISOLATED = "dijkstra-netpoint-without-route"    # root cause: node_map_search() == nullptr is dereferenced
 SIG_REVERSED = "dijkstra-hop-links-reversed"           # root cause: insert_link_latency() inserts each hop reversed
 
@@ -15,9 +16,9 @@ SIG_REVERSED = "dijkstra-hop-links-reversed"           # root cause: insert_link
 class C25(core.Prop):
     id = "C25"
     drivers = ["route_driver"]
-    ready = False
+    ready = True
     max_workers = 4
-    sizes = {"quick": 1400, "thorough": 40000}
+    sizes = {"quick": 650, "thorough": 40000}
     technique = ("property-based testing (Hypothesis): validity predicate (chain of declared one-hop routes + minimal link count "
                  "from a reference Dijkstra) and differential Floyd/Dijkstra/DijkstraCache on the same generated graph")
     rule = ("Hypothesis generates directed graphs of 1..30 netpoints (hosts and routers, random creation order) with declared one-hop "
@@ -33,7 +34,7 @@ class C25(core.Prop):
     assumptions = ["cost of a declared route = its number of links (what FloydZone/DijkstraZone implement; the statement says 'number of links')",
                    "pairs without a path are not queried (outside the quantified domain)",
                    "declared loopback routes have <= 2 links so that the documented loopback and the minimal chain coincide",
-                   "a CPU budget of 3 s (median case: ~3 ms) exhausted twice in a row is reported as nontermination"]
+                   "a request that exhausts 3 s of CPU is re-executed with 8 s (a case needs 5-100 ms): only if that is exhausted too is it reported as nontermination, otherwise the case is inconclusive"]
 
     def strategy(self, tier):
         return route.sp_graphs(max_n=30)
@@ -58,7 +59,7 @@ class C25(core.Prop):
         exclude_isolated = kn.is_known(SIG_ISOLATED) and not g.get("noexclude") and not os.environ.get("VF_C25_NOEXCLUDE")
         for k in route.SP_KINDS:
             q = []
-            for s, d in g["pairs"]:
+            for s, d in (g["pairs"] if k in g.get("kinds", route.SP_KINDS) else []):
                 if s == d:
                     if k != "floyd" and exclude_isolated and not any(s in e for e in dedges):
                         excluded += 1      # a netpoint that appears in no route crashes Dijkstra zones (known)
@@ -104,17 +105,19 @@ class C25(core.Prop):
                 break
             k, i = flat[len(res)]
             s, d = queries[k][i]
-            what = "never returned (CPU budget of 3 s exhausted)" if r.cpu_exceeded else "died with rc=%s: %s" % (r.rc, r.err[-600:])
+            what = "never returned" if r.cpu_exceeded else "died with rc=%s: %s" % (r.rc, r.err[-600:])
             sig = ("nontermination:" if r.cpu_exceeded else "crash:") + k
             if r.cpu_exceeded:
-                # confirm: same platform, this query alone
-                plat1, _ = route.sp_platform(g, kinds=(k,), queries={k: [(s, d)]})
-                r1, _, res1, done1, _ = route.run_platform(plat1, cpu=CPU, wall=180)
+                # confirm: the same platform and the same queries up to the fatal one, with a larger budget
+                upto = {kk: [] for kk in pending}
+                for (kk, ii) in flat[:len(res) + 1]:
+                    upto[kk].append(queries[kk][ii])
+                plat1, _ = route.sp_platform(g, kinds=kinds, queries=upto)
+                r1, _, res1, done1, _ = route.run_platform(plat1, cpu=CPU_CONFIRM, wall=240)
                 oc.evals += 1
-                if r1.wall_exceeded:
-                    raise core.Inconclusive()
-                if done1:
-                    what += "; alone the same query returns (only after the earlier queries it does not)"
+                if r1.wall_exceeded or done1:
+                    raise core.Inconclusive()      # it was the load of the machine, not the code
+                what = "never returned (CPU budgets of %d s, then %d s exhausted)" % (CPU, CPU_CONFIRM)
             if k != "floyd" and not route.reach_all(dist[s]):
                 sig = SIG_OVERFLOW
             if k != "floyd" and not any(s in e or d in e for e in dedges):
